@@ -723,6 +723,15 @@ def finish(args, mod, results, dead, wall, ncases, P):
     for v in confirmed:
         print(f"violation: {json.dumps(v['sig'], sort_keys=True)}\n  {v['msg'][:600]}")
         print(f"VIOLATION property={prop} replay={v['replay']}")
+        # the replay file again, inline (gzip + base64, one line): a log that outlives the machine the check
+        # ran on is then enough to re-execute the violation elsewhere (tools/replay_from_log.py)
+        try:
+            import base64
+            import gzip
+            with open(v["replay"], "rb") as fh:
+                print("REPLAY-INLINE " + base64.b64encode(gzip.compress(fh.read())).decode())
+        except OSError:
+            pass
         rc = 1
     return rc
 
